@@ -106,4 +106,21 @@ theorem task_registry_tracks_every_task :
     "task.cancel" ∈ Coop.actions .call Skeletons.sk_async_tasks__AsyncTasks_cancel_key_tasks ∧
     Coop.selfStateWritten Skeletons.sk_async_tasks__AsyncTasks_cancel_key_tasks = [] := by decide +kernel
 
+/-- **discovery gives its endpoint back however it ends**: over the regenerated skeleton of `discover()`, in every trace - normal
+return, exception, cancellation at any await - the endpoint obtained from `create_datagram_endpoint` is closed before the coroutine
+is left (state 2 = the creating await itself did not return: the "pending" window of `crashPoints`) -/
+theorem discover_releases_endpoint_on_every_exit :
+    Coop.releasedOnEveryExit (Coop.isAwaitOf "loop.create_datagram_endpoint") (Coop.isCallOf "self._transport.close")
+      Skeletons.sk_async_locator__GeckoAsyncLocator_discover = true := by decide +kernel
+
+/-- **the only awaits inside `finally:` blocks, in all coroutines of the source tree, are the two FINISHED announcements** (C08's
+"closed even when the phase raises"); every other clean-up block runs to its end without a suspension point, so neither a pending
+nor a second cancellation can cut it short -/
+theorem awaits_inside_finally_are_the_finished_announcements :
+    (Skeletons.all.flatMap fun p => Coop.finallyAwaits p.2) =
+      ["self._handle_event(GeckoSpaEvent.LOCATING_FINISHED)", "self._handle_event(GeckoSpaEvent.CONNECTION_FINISHED)"] ∧
+    (Skeletons.all.filter fun p => !(Coop.actions .finEnter p.2).isEmpty).map (·.1) =
+      ["async_locator.py:GeckoAsyncLocator.discover", "async_spa_manager.py:GeckoAsyncSpaMan.async_locate_spas",
+       "async_spa_manager.py:GeckoAsyncSpaMan.async_connect_to_spa"] := by decide +kernel
+
 end GeckoModel.C10
